@@ -15,7 +15,7 @@ use std::collections::BTreeMap;
 
 /// one-, two- and three-word names, some a word-prefix of another
 /// ... two with non-ASCII letters, two spelled like a month / a zone abbreviation, one containing an operator character
-pub const NAMES: [&str; 11] = ["total", "total cost", "total cost net", "rent", "net", "bonus", "ürün", "цена нетто", "may", "west", "tax-rate"];
+pub const NAMES: [&str; 13] = ["total", "total cost", "total cost net", "rent", "net", "bonus", "ürün", "цена нетто", "may", "west", "tax-rate", "q1", "item 2"];
 
 /// a value with an exact literal spelling
 #[derive(Clone, Debug, PartialEq)]
@@ -411,7 +411,7 @@ pub fn literal_strategy() -> impl Strategy<Value = String> {
 
 pub fn operand_strategy(name_weight: u32) -> impl Strategy<Value = Operand> {
     prop_oneof![
-        name_weight => (0u8..11, 0u8..5, any::<u32>()).prop_map(|(i, c, b)| Operand::Name(i, c, b)),
+        name_weight => (0u8..13, 0u8..5, any::<u32>()).prop_map(|(i, c, b)| Operand::Name(i, c, b)),
         2 => literal_strategy().prop_map(Operand::Lit),
     ]
 }
@@ -436,22 +436,22 @@ pub fn expr_strategy() -> impl Strategy<Value = Expr> {
 
 pub fn stmt_strategy() -> impl Strategy<Value = Stmt> {
     prop_oneof![
-        6 => (0u8..11, 0u8..5, any::<u32>(), prop_oneof![3 => literal_strategy().prop_map(|l| Expr::One(Operand::Lit(l))), 4 => expr_strategy()]).prop_map(|(i, c, b, e)| Stmt::Assign(i, c, b, e)),
+        6 => (0u8..13, 0u8..5, any::<u32>(), prop_oneof![3 => literal_strategy().prop_map(|l| Expr::One(Operand::Lit(l))), 4 => expr_strategy()]).prop_map(|(i, c, b, e)| Stmt::Assign(i, c, b, e)),
         // copies (value, not reference): a later re-binding of the source must not show through
-        2 => (0u8..11, 0u8..11, 0u8..5, any::<u32>()).prop_map(|(i, j, c, b)| Stmt::Assign(i, c.wrapping_add(1), b.rotate_left(7), Expr::One(Operand::Name(j, c, b)))),
-        2 => (0u8..11, 0u8..5, any::<u32>()).prop_map(|(i, c, b)| Stmt::Use(Expr::One(Operand::Name(i, c, b)))),
+        2 => (0u8..13, 0u8..13, 0u8..5, any::<u32>()).prop_map(|(i, j, c, b)| Stmt::Assign(i, c.wrapping_add(1), b.rotate_left(7), Expr::One(Operand::Name(j, c, b)))),
+        2 => (0u8..13, 0u8..5, any::<u32>()).prop_map(|(i, c, b)| Stmt::Use(Expr::One(Operand::Name(i, c, b)))),
         // a name re-bound to a value that differs from its current one by less than the printer shows
         // (`x = x + 0,004`): the new value is the binding, however alike the two print
-        2 => (0u8..11, 0u8..5, any::<u32>(), prop::sample::select(vec!["+ 0,004", "* 1,0001", "- 0,0003", "+ 0,004 usd", "+ 1 g", "+ 0,3%"])).prop_map(|(i, c, b, s)| Stmt::Assign(i, c, b, Expr::Suffix(Operand::Name(i, c, b), s.to_string()))),
+        2 => (0u8..13, 0u8..5, any::<u32>(), prop::sample::select(vec!["+ 0,004", "* 1,0001", "- 0,0003", "+ 0,004 usd", "+ 1 g", "+ 0,3%"])).prop_map(|(i, c, b, s)| Stmt::Assign(i, c, b, Expr::Suffix(Operand::Name(i, c, b), s.to_string()))),
         7 => expr_strategy().prop_map(Stmt::Use),
-        2 => (0u8..11, 0u8..5).prop_map(|(i, k)| Stmt::Fail(i, k)),
+        2 => (0u8..13, 0u8..5).prop_map(|(i, k)| Stmt::Fail(i, k)),
         1 => (0u8..6).prop_map(Stmt::Garbage),
     ]
 }
 
 pub fn program_strategy(max: usize) -> impl Strategy<Value = Program> {
     // start with a few plain assignments so that names are bound early
-    (prop::collection::vec((0u8..11, 0u8..5, any::<u32>(), literal_strategy()), 1..4), prop::collection::vec(stmt_strategy(), 2..max)).prop_map(|(init, rest)| {
+    (prop::collection::vec((0u8..13, 0u8..5, any::<u32>(), literal_strategy()), 1..4), prop::collection::vec(stmt_strategy(), 2..max)).prop_map(|(init, rest)| {
         let mut stmts: Vec<Stmt> = init.into_iter().map(|(i, c, b, l)| Stmt::Assign(i, c, b, Expr::One(Operand::Lit(l)))).collect();
         stmts.extend(rest);
         Program { stmts }
